@@ -91,7 +91,7 @@ func (s *c07Sys) Ops() []string {
 			ops = append(ops, fmt.Sprintf("login(%s,%s,form)", u, pw))
 		}
 	}
-	ops = append(ops, "login(alice,current,basic)", "login(ALICE,current,form)", "login(alice,empty,form)", "login(alice,bobs,form)",
+	ops = append(ops, "login(alice,current,basic)", "login(ALICE,current,form)", "login(alice,empty,form)", "login(alice,bobs,form)", "login(bob,alices,form)",
 		"dir(up)", "dir(down)", "dir(first-down)", "dir(second-down)", "change(alice)", "change(bob)", "tick(1h)", "tick(95h)", "tick(97h)",
 		"primary(up)", "primary(outage)", "sync", "tamper(copy-alice-to-bob)", "tamper(bump-expiry-alice)", "tamper(flip-byte-alice)")
 	return ops
@@ -254,15 +254,28 @@ func (s *c07Sys) Apply(op string) (string, string, string) {
 	case "tamper":
 		switch args[0] {
 		case "copy-alice-to-bob":
-			var jws string
-			var exp, upd int64
-			if err := st.cacheDB.QueryRow("select jws_data, expiration_epoch, update_epoch from expiring_signed_user_data where username='alice' and type=?", c07Type).Scan(&jws, &exp, &upd); err != nil {
-				return "nothing-to-copy", "", ""
+			// someone with write access to the rows (not to the signing key) copies alice's
+			// signed record into bob's row, in whichever store holds one
+			did := false
+			for i, db := range []*sql.DB{st.db, st.cacheDB} {
+				var jws string
+				var exp, upd int64
+				if err := db.QueryRow("select jws_data, expiration_epoch, update_epoch from expiring_signed_user_data where username='alice' and type=?", c07Type).Scan(&jws, &exp, &upd); err != nil {
+					continue
+				}
+				db.Exec("insert or replace into expiring_signed_user_data(username, type, jws_data, expiration_epoch, update_epoch) values(?,?,?,?,?)", "bob", c07Type, jws, exp, upd)
+				did = true
+				model := s.primary
+				if i == 1 {
+					model = s.cache
+				}
+				if r := model["alice"]; r != nil {
+					cp := *r
+					model["bob"] = &cp
+				}
 			}
-			st.cacheDB.Exec("insert or replace into expiring_signed_user_data(username, type, jws_data, expiration_epoch, update_epoch) values(?,?,?,?,?)", "bob", c07Type, jws, exp, upd)
-			if r := s.cache["alice"]; r != nil {
-				cp := *r
-				s.cache["bob"] = &cp
+			if !did {
+				return "nothing-to-copy", "", ""
 			}
 		case "bump-expiry-alice":
 			n := vclock.Now().Add(10000 * time.Hour)
@@ -303,6 +316,8 @@ func (s *c07Sys) Apply(op string) (string, string, string) {
 			pw = "definitely-wrong"
 		case "bobs":
 			pw = c07Pw("bob", c07D.pw["bob"])
+		case "alices":
+			pw = c07Pw("alice", c07D.pw["alice"])
 		}
 		calls := c07D.Calls
 		var resp *vfResp
